@@ -132,6 +132,8 @@ def point : PC → Option String
 def startOp (_s : St) (op : String) : Option PC :=
   match op.splitOn ":" with
   | ["sched", j] => j.toNat?.map .s0
+  | ["invoke", j] => j.toNat?.map .s0
+  | ["invoket", j] => j.toNat?.map .s0
   | ["isclosed"] => some .ic
   | ["close"] => some .pc0
   | _ => none
@@ -158,8 +160,23 @@ theorem compact_eq (s : St) : compact s = s := by
     funext k; cases k <;> rfl
   simp only [compact, this]
 
+/-- jobs 50–99 are submitted through `DefaultInvokable.Invoke`, which has no result: its caller sees nothing of
+    Schedule's outcome (`invoke:k`); `InvokeWithTimeout` (`invoket:k`) returns ScheduleWithTimeout's error -/
+def viaInvoke : PC → Bool
+  | .s0 j => decide (50 ≤ j) && decide (j < 100)
+  | .s1 j => decide (50 ≤ j) && decide (j < 100)
+  | .s2 j => decide (50 ≤ j) && decide (j < 100)
+  | _ => false
+
+/-- what the caller of `pc`'s operation gets to see of the atom's outcome -/
+def hideResult (pc : PC) : Next PC → Next PC
+  | .fin r => if viaInvoke pc then .fin .ok else .fin r
+  | nx => nx
+
 def ops : Ops St PC where
-  gstep := fun s pc _ => gstep s pc false       -- the executor never lets the expiry timer fire
+  -- the executor never lets the expiry timer fire; the state transition is `gstep`'s, only the printed result of
+  -- an `Invoke` is hidden
+  gstep := fun s pc _ => (gstep s pc false).map (fun p => (p.1, hideResult pc p.2))
   spawn := spawn
   point := point
   startOp := startOp
